@@ -73,7 +73,7 @@ StartExpiry(ver, clean, req) ==
 Connect(k, cid, ver, clean, recvmax, expiry) ==
   /\ k \notin DOMAIN conn
   /\ conn' = Put(conn, k, [cid |-> cid, ver |-> ver, st |-> "connecting", clean |-> clean, recvmax |-> recvmax,
-                          expiry |-> StartExpiry(ver, clean, expiry)])
+                          expiry |-> StartExpiry(ver, clean, expiry), sawfresh |-> FALSE])
   /\ UNCHANGED <<cfg, subs, sess, owed, gowed, ctl, ret, unack, infl, last, ctr>>
 
 \* the state a session is reduced to when its connection goes away: QoS0 copies not yet read may or may
@@ -104,7 +104,9 @@ Connack(k, sp, code) ==
   /\ ctl' = IF old # 0 /\ old # k THEN Put(ctl, old, {}) ELSE ctl
   /\ IF mustResume
        THEN /\ owed' = Put(owed, c, Carry(Owed(c)))
-            /\ UNCHANGED <<subs, unack, infl, gowed>>
+            \* everything this session has received and not fully acknowledged must be retransmitted first (C03)
+            /\ infl' = Put(infl, c, {[e EXCEPT !.rs = TRUE] : e \in Infl(c)})
+            /\ UNCHANGED <<subs, unack, gowed>>
        ELSE EndSessionState(c)
   /\ UNCHANGED <<cfg, ret, last, ctr>>
 
@@ -290,13 +292,15 @@ OrderOK(c, ob, dup) == ob.src = RET \/ dup \/ ob.carried \/ ob.idx >= Get(last, 
 PidOK(c, p) == IF p.qos = 0 THEN TRUE
                ELSE p.pid # 0 /\ (\A e \in Infl(c) : e.pid # p.pid)
 
-Window(c, k) == Cardinality({e \in Infl(c) : e.phase = "pub" \/ e.phase = "rel"})
+\* entries of session c still to be retransmitted on the current connection, and the next one (original order)
+Resend(c) == {e \in Infl(c) : e.rs}
+IsNextResend(c, e) == e \in Resend(c) /\ \A x \in Resend(c) : e.n <= x.n
 
 \* does obligation ob of session c explain the PUBLISH p read on k ?
 FitsOwed(c, k, ob, p) ==
   /\ ob.tag = p.tag /\ ob.topic = p.topic /\ ob.qos = p.qos /\ p.retain \in ob.retains
   /\ IdsOK(k, p.ids, ob)
-  /\ (p.dup => ob.carried)
+  /\ (p.dup => ob.carried)                 \* the first transmission has DUP = 0
   /\ OrderOK(c, ob, p.dup)
 
 \* does the group obligation g explain it, c being member mb ?
@@ -305,6 +309,11 @@ FitsGroup(c, k, g, mb, p) ==
   /\ p.qos = Min(g.mqos, mb.qos) /\ p.retain = (g.retain /\ mb.rap)
   /\ (conn[k].ver = 5 => SeqToSet(p.ids) = {mb.id} \ {0}) /\ (conn[k].ver # 5 => p.ids = <<>>)
   /\ (p.dup \/ g.idx >= Get(last, <<c, g.src>>, 0))
+
+\* C03: retransmissions (DUP = 1) come before anything new on a connection, and nothing new is sent while
+\* something this session is known to hold unacknowledged has not been retransmitted
+SeqOK(c, k, p) == /\ (p.dup => ~conn[k].sawfresh)
+                  /\ (~p.dup => Resend(c) = {})
 
 Explained(k, p) ==
   LET c == conn[k].cid IN
@@ -315,14 +324,15 @@ Explained(k, p) ==
 \* PUBLISH read on k: p = [topic, tag, qos, retain, dup, pid, ids]
 Deliver(k, p) ==
   LET c == conn[k].cid
-      track == IF p.qos > 0 THEN Put(infl, c, Infl(c) \cup {[pid |-> p.pid, tag |-> p.tag, phase |-> "pub", qos |-> p.qos]}) ELSE infl IN
+      track == IF p.qos > 0 THEN Put(infl, c, Infl(c) \cup {[pid |-> p.pid, tag |-> p.tag, phase |-> "pub", qos |-> p.qos,
+                                                            n |-> ctr.oid, k |-> k, rs |-> FALSE]}) ELSE infl IN
   /\ Up(k)
   /\ \/ \* (a) a fresh copy: discharges one obligation of this session
         /\ \E ob \in Owed(c) :
              /\ FitsOwed(c, k, ob, p)
              /\ owed' = [owed EXCEPT ![c] = @ \ {ob}]
              /\ last' = IF ob.src = RET THEN last ELSE Put(last, <<c, ob.src>>, Max(ob.idx, Get(last, <<c, ob.src>>, 0)))
-        /\ PidOK(c, p)
+        /\ PidOK(c, p) /\ SeqOK(c, k, p)
         /\ infl' = track
         /\ UNCHANGED gowed
      \/ \* (b) the copy of a share group, this session being the member the broker picked
@@ -330,14 +340,19 @@ Deliver(k, p) ==
              /\ FitsGroup(c, k, g, mb, p)
              /\ gowed' = gowed \ {g}
              /\ last' = Put(last, <<c, g.src>>, Max(g.idx, Get(last, <<c, g.src>>, 0)))
-        /\ PidOK(c, p)
+        /\ PidOK(c, p) /\ SeqOK(c, k, p)
         /\ infl' = track
         /\ UNCHANGED owed
-     \/ \* (c) retransmission of something this session already received and has not fully acknowledged
-        /\ p.dup /\ p.qos > 0
-        /\ \E e \in Infl(c) : e.pid = p.pid /\ e.tag = p.tag /\ e.phase = "pub" /\ e.qos = p.qos
-        /\ UNCHANGED <<owed, gowed, infl, last>>
-  /\ UNCHANGED <<cfg, subs, conn, sess, ctl, ret, unack, ctr>>
+     \/ \* (c) retransmission of something this session already received and has not fully acknowledged:
+        \*     same packet id, DUP = 1, in the original order, before anything new
+        /\ p.dup /\ p.qos > 0 /\ ~conn[k].sawfresh
+        /\ \E e \in Infl(c) : /\ e.pid = p.pid /\ e.tag = p.tag /\ e.phase = "pub" /\ e.qos = p.qos
+                               /\ IsNextResend(c, e)
+                               /\ infl' = [infl EXCEPT ![c] = (@ \ {e}) \cup {[e EXCEPT !.rs = FALSE, !.k = k]}]
+        /\ UNCHANGED <<owed, gowed, last>>
+  /\ conn' = IF p.dup THEN conn ELSE [conn EXCEPT ![k].sawfresh = TRUE]
+  /\ ctr' = [ctr EXCEPT !.oid = @ + 1]
+  /\ UNCHANGED <<cfg, subs, sess, ctl, ret, unack>>
 
 \* client acknowledges a delivery: PUBACK(pid) / PUBCOMP(pid) end it, PUBREC(pid) moves it to the PUBREL phase
 ClientAck(k, t, pid, code) ==
@@ -355,10 +370,14 @@ PubrelRecv(k, pid) ==
   /\ k \in DOMAIN conn
   /\ \/ /\ [t |-> "pubrel", pid |-> pid] \in Ctl(k)
         /\ ctl' = [ctl EXCEPT ![k] = @ \ {[t |-> "pubrel", pid |-> pid]}]
-     \/ /\ \E e \in Infl(c) : e.pid = pid /\ e.phase = "rel"
+        /\ infl' = infl
+     \/ \* retransmitted PUBREL after a reconnect: in the original order, before anything new
         /\ [t |-> "pubrel", pid |-> pid] \notin Ctl(k)
+        /\ ~conn[k].sawfresh
+        /\ \E e \in Infl(c) : /\ e.pid = pid /\ e.phase = "rel" /\ IsNextResend(c, e)
+                               /\ infl' = [infl EXCEPT ![c] = (@ \ {e}) \cup {[e EXCEPT !.rs = FALSE]}]
         /\ ctl' = ctl
-  /\ UNCHANGED <<cfg, subs, conn, sess, owed, gowed, ret, unack, infl, last, ctr>>
+  /\ UNCHANGED <<cfg, subs, conn, sess, owed, gowed, ret, unack, last, ctr>>
 
 Pingreq(k) ==
   /\ Up(k)
@@ -378,9 +397,20 @@ Dischargeable(c) == {ob \in Owed(c) : ~ob.opt}
 \* a group copy is parked legitimately only while one of its members is offline (it may be queued there)
 GroupParked(g) == \E mb \in g.members : ~Online(mb.c)
 
+\* the window of connection k: min(the client's Receive Maximum, the broker's max_inflight)
+Limit(k) == Min(IF conn[k].recvmax = 0 THEN 65535 ELSE conn[k].recvmax, cfg.maxinflight)
+
+\* unacknowledged PUBLISH packets (re)transmitted on connection k (a QoS2 exchange counts until PUBCOMP)
+WindowOf(c, k) == {e \in Infl(c) : e.k = k /\ ~e.rs}
+\* the flow-control window of the session's current connection may be full: nothing more can be demanded right
+\* now.  (Lenient on purpose: a broker may also count exchanges whose PUBLISH was sent on an earlier connection and
+\* that still await PUBCOMP; the bound itself - WindowOK - counts only what the statement counts.)
+Blocked(c) == Online(c) /\ Cardinality({e \in Infl(c) : ~e.rs}) >= Limit(sess[c].online)
+
 QuietOK ==
-  /\ \A c \in DOMAIN sess : Online(c) => Dischargeable(c) = {}
-  /\ \A g \in gowed : GroupParked(g)
+  /\ \A c \in DOMAIN sess : (Online(c) /\ ~Blocked(c)) => Dischargeable(c) = {}
+  /\ \A c \in DOMAIN sess : (Online(c) /\ ~Blocked(c)) => Resend(c) = {}   \* everything unacknowledged was retransmitted
+  /\ \A g \in gowed : GroupParked(g) \/ \E mb \in g.members : Blocked(mb.c)
   /\ \A k \in DOMAIN conn : conn[k].st = "up" => Ctl(k) = {}
 
 Quiet == QuietOK /\ UNCHANGED bvars
@@ -392,8 +422,7 @@ Quiet == QuietOK /\ UNCHANGED bvars
 IdsDistinct == \A c \in DOMAIN infl : \A e1, e2 \in infl[c] : (e1.pid = e2.pid => e1 = e2) /\ e1.pid # 0
 
 \* C03: the client never holds more unacknowledged QoS>0 deliveries than min(Receive Maximum, max_inflight)
-Limit(k) == Min(IF conn[k].recvmax = 0 THEN 65535 ELSE conn[k].recvmax, cfg.maxinflight)
-WindowOK == \A c \in DOMAIN sess : Online(c) => Cardinality(Infl(c)) <= Limit(sess[c].online)
+WindowOK == \A c \in DOMAIN sess : Online(c) => Cardinality(WindowOf(c, sess[c].online)) <= Limit(sess[c].online)
 
 \* a (client, filter) pair is stored once
 SubsKeyed == \A s1, s2 \in subs : SubKey(s1) = SubKey(s2) => s1 = s2
